@@ -68,9 +68,10 @@ CLAIMS = {
         "text": ("Theorems for every insertion history, key list and direction vector: Criteria::cmp is a total preorder; "
                  "the echelon (BTreeMap<K,Vec<V>>) layer refines stable insertion into a list; the unlimited ordered result "
                  "is a permutation of the buffered rows with non-decreasing keys and stable ties — stated on `orderedPieces`, "
-                 "the function the model prints; a key listed a second time, in whatever direction, never changes the comparison "
+                 "the function the model prints; parse_order_by reads the key list as written — every key (expression of the proved "
+                 "grammar or position in the select list) in order, each with its own direction (order_by_parse_correct); a key listed a second time, in whatever direction, never changes the comparison "
                  "(repeated_key_irrelevant). That the buffered rows equal the rows of the query without ORDER BY, and the "
-                 "positional/unselected-key clauses, are decided by the correspondence (model vs binary) and the oracle "
+                 "unselected-key clause, are decided by the correspondence (model vs binary) and the oracle "
                  "(permutation of the unordered run; adjacent pairs ordered under an independent comparator), not by proof."),
         "ref": "DESIGN.md §4 C05",
     },
